@@ -2,7 +2,8 @@
 C11 - JSON export and load round-trip every JSON-representable tree.
 
 Lean: lean/N0Verif/Model/Json.lean, Proofs/Json.lean, Props/C11.lean
-B streams : json.dump (model text vs to_json, blanks outside strings ignored), json.dump/exact (statistic only),
+B streams : json.ctor (constructor model vs n0dict(text)/n0list(text): value, class tags, exception class),
+            json.dump (model text vs to_json, blanks outside strings ignored), json.dump/exact (statistic only),
             json.loads (reader model vs json.loads on valid, mutated and hand-made invalid texts),
             json.esc (json.dumps string escaping), json.expect (the evaluator's reference `prune` vs the Lean `dropEmptyIf`)
 C         : roundtrip  json.loads(x.to_json(**o)) == dropEmptyIf(o, x)   (typed, dict order ignored)
@@ -458,7 +459,54 @@ def impl_expect(c):
     return "ok " + core.enc_val(expected(build(c["t"]), c["skip"]))
 
 
-IMPL_OF = {"json.dump": impl_dump, "json.loads": impl_loads, "json.esc": impl_esc, "json.expect": impl_expect, "json.dumptext": impl_dump_exact}
+def enc_ctor(got, lex):
+    """the constructed value with its class tags; a float is printed as the lexeme found at the same position by
+    json.loads(text, parse_float=Lex) when it denotes that float (floats are opaque lexemes in the model)"""
+    from n0struct import n0dict, n0list  # noqa
+
+    if isinstance(got, float):
+        if isinstance(lex, Lex) and (float(lex) == got or (got != got and float(lex) != float(lex))):
+            return "R" + enc_str(str(lex))
+        return "R?" + repr(got)
+    if isinstance(got, bool) or got is None or isinstance(got, (int, str)):
+        return core.enc_val(got)
+    if isinstance(got, list):
+        c = "n" if isinstance(got, n0list) else "p"
+        ls = lex if isinstance(lex, list) and len(lex) == len(got) else [None] * len(got)
+        return " ".join(["L%s%d" % (c, len(got))] + [enc_ctor(x, y) for x, y in zip(got, ls)])
+    if isinstance(got, dict):
+        c = "n" if isinstance(got, n0dict) else "p"
+        out = ["D%s%d" % (c, len(got))]
+        for k, x in got.items():
+            out += [enc_str(k), enc_ctor(x, lex.get(k) if isinstance(lex, dict) else None)]
+        return " ".join(out)
+    raise ValueError(type(got))
+
+
+def impl_ctor(c):
+    from n0struct import n0dict, n0list  # noqa
+
+    text = c["text"]
+    try:
+        got = (n0dict if c["kind"] == "d" else n0list)(text)
+    except RecursionError:
+        return "err RecursionError"
+    except ValueError:  # json.JSONDecodeError
+        return "err JSONDecodeError"
+    except Exception as e:
+        return "err " + type(e).__name__
+    try:
+        lex = json.loads(text.strip(), parse_float=Lex, parse_constant=Lex)
+    except Exception:
+        lex = None
+    return "ok " + enc_ctor(got, lex)
+
+
+def line_ctor(c):
+    return "json.ctor %s %s" % (c["kind"], enc_str(c["text"]))
+
+
+IMPL_OF = {"json.ctor": impl_ctor, "json.dump": impl_dump, "json.loads": impl_loads, "json.esc": impl_esc, "json.expect": impl_expect, "json.dumptext": impl_dump_exact}
 
 
 def line_dump(c):
@@ -638,6 +686,22 @@ def run(ctx):
             tcases.append({"text": text, "pad": rc.choice(["", " ", "\n", "\t "]), "pad2": rc.choice(["", " ", "\r\n"])})
     tcases = [c for c in tcases if len(json.loads(c["text"])) > 0]  # the constructors treat an empty argument as "no argument"
     ctx.evaluate("constructor", tcases, check_constructor)
+
+    # ---- B4: the constructor model (empty argument, strip(), first character, json.loads with
+    # object_pairs_hook=n0dict, copy into self) vs n0dict(text) / n0list(text): value, class tags, exception class
+    rk = ctx.rng("ctor-model")
+    pads = ["", "", " ", "\n", "\t ", "\x0c", "\xa0 ", "\u2003", "\x1f\r", "\ufeff", "x", "<", "{", "["]
+    kcases = []
+    for text in INVALID + [c["text"] for c in tcases[:n]]:
+        variants = [text, rk.choice(pads) + text + rk.choice(pads)]
+        if rk.random() < 0.5:
+            variants.append(mutate_text(rk, text))
+        for v in variants:
+            for kind in "dl":
+                kcases.append({"kind": kind, "text": v})
+    ctx.correspond("json.ctor", kcases, line_ctor, impl_ctor)
+    st = ctx.streams["json.ctor"]
+    ctx.extra["ctor_stream"] = {"constructed": st["cases"] - sum(st["errs"].values()), "errors": dict(st["errs"])}
 
     ctx.extra["assumptions"] = [
         "floats are opaque lexemes: Python's repr of a finite float is a JSON number lexeme that json.loads reads back to the same float (generators exclude NaN, inf, -0.0)",
